@@ -3,7 +3,10 @@ package actor
 // C11 harness (threaded): R requests to one responder on a bare engine. The
 // response ids come from the rand model (any value in range, chosen by the
 // solver), replies are sent 0..2 times per request by a replier goroutine,
-// the timeout timers fire whenever the scheduler lets them.
+// a timeout timer can fire only once the harness clock has reached its deadline:
+// the clock moves when a requester dawdles between Request and Result or the
+// replier dawdles before a reply (time.Sleep of twice the timeout, SLEEP bit 1
+// and 2), or when every goroutine is blocked.
 
 import (
 	"github.com/anthdm/hollywood/zzrt"
@@ -59,16 +62,29 @@ func ZZ_C11() {
 	lateLost := false
 	earlyLost := false
 	entered := make([]bool, R)
+	SLEEP := zzrt.Param("SLEEP")
+	t0 := make([]int64, R)
+	t1 := make([]int64, R)
+	waiting := make([]bool, R) // a reply was handed over, start to end, before Result was entered
 	for i := 0; i < R; i++ {
 		i := i
 		zzrt.Go(func() {
+			if SLEEP&1 != 0 && zzrt.Choose(2) == 1 {
+				zzrt.Reach("requester-dawdles-past-the-timeout-before-Result")
+				time.Sleep(2 * time.Second)
+			}
 			entered[i] = true
+			t0[i] = zzrt.ClockNow()
 			vals[i], errs[i] = resps[i].Result()
+			t1[i] = zzrt.ClockNow()
 			done[i] = true
 		})
 	}
 	zzrt.Go(func() {
 		for i := 0; i < R; i++ {
+			if SLEEP&2 != 0 && nrep[i] > 0 && zzrt.Choose(2) == 1 {
+				time.Sleep(2 * time.Second)
+			}
 			var to *PID
 			for _, g := range rp.reqs {
 				if q, ok := g.Msg.(zzReq); ok && q.I == i {
@@ -86,6 +102,7 @@ func ZZ_C11() {
 					// the reply was sent, start to end, before the requester even entered Result(): no timeout can
 					// have passed, so it must be waiting for the requester, not be reported undeliverable
 					zzrt.Reach("reply-before-Result-entered")
+					waiting[i] = true
 					for _, ev := range sink.evs {
 						if d, ok := ev.(DeadLetterEvent); ok {
 							if m, ok := d.Message.(zzRep); ok && m.I == i && m.N == n {
@@ -130,6 +147,15 @@ func ZZ_C11() {
 		} else {
 			zzrt.Reach("timed-out")
 			zzrt.Assert(vals[i] == nil, "C11:value-and-error")
+			// all requests were made at clock 0 with a timeout of one second
+			zzrt.Assert(t1[i] >= int64(time.Second), "C11:timeout-error-before-the-timeout-has-passed")
+			if waiting[i] && t1[i] == t0[i] {
+				// the reply was there when Result was entered and no time at all passed inside Result
+				zzrt.Fail("C11:reply-that-arrived-before-Result-was-entered-is-not-returned")
+			}
+		}
+		if waiting[i] && errs[i] == nil && t0[i] > 0 {
+			zzrt.Reach("reply-collected-after-the-timeout-had-passed-since-Request")
 		}
 		if nrep[i] == 0 && !collide {
 			zzrt.Assert(errs[i] != nil, "C11:result-without-reply")
